@@ -69,15 +69,38 @@ def sigP (h : HPc) (fs : List FThread) : Prop :=
 /-- some thread's next action is the ping of `CallLaterTask.callLater` -/
 def pingP (fs : List FThread) : Prop := ∃ (i : Nat) (f : FThread), fs[i]? = some f ∧ f.pc = FPc.clPing
 
-/-- the CallLaterTask is inside its drain loop (it will look at the deque again before it sleeps) -/
+/-- the CallLaterTask is inside its drain loop (it will look at the deque again before it sleeps) — or the scheduler
+    thread's own next action is the ping of a hand-over made by cooperative code -/
 def draining : SPc → Bool
-  | .cltPop _ | .cltCall _ _ => true
+  | .cltPop _ | .cltCall _ _ | .ucPing _ => true
+  | _ => false
+
+/-- the hub runner is in the loop that empties `_incoming` (it looks at the queue again before it leaves) -/
+def hubDrainB : HubPc → Bool
+  | .empty _ | .get _ => true
+  | _ => false
+
+def drainS : SPc → Bool
+  | .hub p => hubDrainB p
+  | _ => false
+
+def drainH : HPc → Bool
+  | .hub p => hubDrainB p
+  | _ => false
+
+/-- the scheduler thread's next action is the hub ping of `registerSelect` — or it died of an assertion in `_select` -/
+def sPingOrDead : SPc → Bool
+  | .rsPing _ | .crashed => true
   | _ => false
 
 structure InvN (s : State) : Prop where
   evt : s.s = .idleWait → s.ready ≠ [] → s.event = true ∨ sigP s.h s.fs
   pip : s.s = .hub .select → s.ready ≠ [] → s.hubPipe > 0 ∨ sigP s.h s.fs
   cal : s.calls ≠ [] → s.cltPipe > 0 ∨ pingP s.fs ∨ draining s.s = true
+
+/-- the hub's own `_incoming` queue: what `registerSelect` put there is followed by a ping -/
+def IncOk (s : State) : Prop :=
+  s.incoming ≠ [] → s.hubPipe > 0 ∨ sPingOrDead s.s = true ∨ drainS s.s = true ∨ drainH s.h = true ∨ s.h = .crashed
 
 theorem stepS_N {s s' : State} (h : InvN s) (hs : stepS s = some s') : InvN s' := by
   obtain ⟨h1, h2, h3⟩ := h
@@ -88,6 +111,7 @@ theorem stepS_N {s s' : State} (h : InvN s) (hs : stepS s = some s') : InvN s' :
     | (exact absurd (by assumption) hr)
     | (exact absurd (by assumption) hc)
     | exact Or.inr (Or.inr rfl)
+    | (refine Or.inl ?_; dsimp only; omega)
     | (rcases h3 hc with h | h | h <;> first
         | exact Or.inl h
         | exact Or.inr (Or.inl h)
@@ -177,5 +201,56 @@ theorem init_N (threaded : Bool) (users : List (List UItem)) (progs : List (List
 theorem reach_N {threaded users progs} {s : State} (hr : Reachable threaded users progs s) : InvN s :=
   hr.induct (init_N _ _ _) (fun _ _ _ h hs => stepS_N h hs) (fun _ _ hr h hs => stepH_N (reach_W hr) h hs)
     (fun _ _ _ hr h hs => stepF_N (reach_W hr) h hs) (fun _ _ _ _ h hs => stepT_N h hs)
+
+theorem stepS_I {s s' : State} (h : IncOk s) (hs : stepS s = some s') : IncOk s' := by
+  s_cases hs s hpc
+  all_goals intro hi
+  all_goals first
+    | (refine Or.inl ?_; dsimp only; omega)
+    | exact Or.inr (Or.inl rfl)
+    | exact Or.inr (Or.inr (Or.inl rfl))
+    | exact absurd hi (by assumption)
+    | (rcases h hi with h | h | h | h | h <;> first
+        | exact Or.inl h
+        | exact Or.inr (Or.inr (Or.inr (Or.inl h)))
+        | exact Or.inr (Or.inr (Or.inr (Or.inr h)))
+        | (simp [sPingOrDead, drainS, hubDrainB, hpc] at h; done))
+
+theorem stepH_I {s s' : State} (h : IncOk s) (hs : stepH s = some s') : IncOk s' := by
+  h_cases hs s hpc
+  all_goals intro hi
+  all_goals first
+    | (refine Or.inl ?_; dsimp only; omega)
+    | exact Or.inr (Or.inr (Or.inr (Or.inl rfl)))
+    | exact Or.inr (Or.inr (Or.inr (Or.inr rfl)))
+    | exact absurd hi (by assumption)
+    | (rcases h hi with h | h | h | h | h <;> first
+        | exact Or.inl h
+        | exact Or.inr (Or.inl h)
+        | exact Or.inr (Or.inr (Or.inl h))
+        | (simp [drainH, hubDrainB, hpc] at h; done)
+        | (rw [hpc] at h; cases h; done))
+
+theorem stepF_I {s s' : State} {i : Nat} (h : IncOk s) (hs : stepF s i = some s') : IncOk s' := by
+  f_cases hs s i f hf hpc
+  all_goals intro hi
+  all_goals first
+    | (refine Or.inl ?_; dsimp only; omega)
+    | exact h hi
+
+theorem stepT_I {s s' : State} {t : Tid} (h : IncOk s) (hs : stepT s t = some s') : IncOk s' := by
+  t_cases hs s t hpc
+  all_goals intro hi
+  all_goals first
+    | exact h hi
+    | (rcases h hi with h | h | h | h | h <;> first
+        | exact Or.inl h
+        | exact Or.inr (Or.inr (Or.inr (Or.inl h)))
+        | exact Or.inr (Or.inr (Or.inr (Or.inr h)))
+        | (simp [sPingOrDead, drainS, hubDrainB, hpc] at h; done))
+
+theorem reach_I {threaded users progs} {s : State} (hr : Reachable threaded users progs s) : IncOk s :=
+  hr.induct (fun hi => absurd rfl hi) (fun _ _ _ h hs => stepS_I h hs) (fun _ _ _ h hs => stepH_I h hs)
+    (fun _ _ _ _ h hs => stepF_I h hs) (fun _ _ _ _ h hs => stepT_I h hs)
 
 end Pox.Handoff
